@@ -177,4 +177,24 @@ pub fn run(ctx: &mut Ctx) {
         ctx.eval("wide", m.fp(), true);
         check(ctx, &m, &mut rng, "wide", i);
     }
+    // deep chains: grammar sentences nested up to the decoder's documented limit (127 containers), every leaf kind at the limit
+    if ctx.shard == 0 {
+        let families: [(&str, &[u8]); 5] = [("list", &[0]), ("dict", &[1]), ("grid", &[2]), ("mixed", &[0, 1, 2]), ("meta", &[2, 3, 4, 1])];
+        let mut idx = 0u64;
+        for (fam, kinds) in families {
+            for d in [1usize, 8, 64, 100, 126, 126, 126, 126, 126, 126, 126, 127, 127, 127, 127, 127, 127, 127] {
+                let i = idx;
+                idx += 1;
+                if !ctx.begin("deep-chain", i) {
+                    continue;
+                }
+                let mut rng = ctx.case_rng("deep-chain", i);
+                // (at 127 containers only scalar leaves: an empty grid or dict there may hold a marker tag, and the spelling
+                // 'm:M' of a marker - which the grammar allows - is a value one level deeper than the bare 'm')
+                let m = if d == 127 { crate::gen::deep_chain_with_leaf(&mut rng, d, kinds, (i % 4) as usize) } else if d == 126 { crate::gen::deep_chain_with_leaf(&mut rng, d, kinds, (i % 7) as usize) } else { crate::gen::deep_chain(&mut rng, d, kinds) };
+                ctx.eval(&format!("deep-chain:{fam}"), m.fp(), true);
+                check(ctx, &m, &mut rng, "deep-chain", i);
+            }
+        }
+    }
 }
